@@ -454,7 +454,7 @@ Theorem C02_toFlags_exact :
     bit_if (toFlags_opts_EnableValueMapping o) F_VALUE_MAPPING + bit_if (toFlags_opts_EnableHttpMapping o) F_HTTP_MAPPING +
     bit_if (toFlags_opts_String2Int64 o) F_STRING_INT + bit_if (toFlags_opts_WriteRequireField o) F_WRITE_REQUIRE +
     bit_if (toFlags_opts_NoBase64Binary o) F_NO_BASE64 + bit_if (toFlags_opts_WriteOptionalField o) F_WRITE_OPTIONAL +
-    bit_if (toFlags_opts_ReadHttpValueFallback o) F_TRACE_BACK.
+    bit_if (toFlags_opts_ReadHttpValueFallback o || (toFlags_opts_EnableHttpMapping o && toFlags_opts_TracebackRequredOrRootFields o)) F_TRACE_BACK.
 Proof. exact toFlags_exact. Qed.
 Print Assumptions C02_toFlags_exact.
 
